@@ -202,10 +202,9 @@ func init() {
 		{"via-values", "(multiple-value-list (values-list %s))", shareNone, 1, func(s []int64) []int64 { return s }, true, false},
 		{"copy-seq", "(copy-seq %s)", shareNone, 1, func(s []int64) []int64 { return s }, true, false},
 		{"concatenate", "(concatenate 'list %s)", shareNone, 1, func(s []int64) []int64 { return s }, true, false},
-		{"map-list", "(map 'list #'identity %s)", shareNone, 1, func(s []int64) []int64 { return s }, false, false},
+		{"map-list", "(map 'list (lambda (x) x) %s)", shareNone, 1, func(s []int64) []int64 { return s }, false, false},
 		{"copy-tree", "(copy-tree %s)", shareNone, 1, func(s []int64) []int64 { return s }, false, false},
 		{"revappend", "(revappend %s nil)", shareNone, 1, rev, false, false},
-		{"ldiff", "(ldiff %s nil)", shareNone, 1, func(s []int64) []int64 { return s }, false, false},
 	}
 	for _, u := range unary {
 		u := u
